@@ -21,6 +21,64 @@ add('C02', 'exploration',
     'Trusted: qrref geometry/BCH/Golay model (self-tested on ISO figures at every run), CPython. Data contents: 1-2 per triple.',
     'DESIGN.md section 5, C02')
 
+
+add('C01', 'exploration',
+    'bounded-exhaustive enumeration of contents x option vectors on the real encoder; every returned symbol decoded by an independent ISO 18004 reference reader (qrref)',
+    'All byte strings of length <= 2, all strings of length <= n over a class alphabet, all option vectors with <= k deviations from the defaults, '
+    'both sides of capacity for every (version, level, mode) and all short part sequences are encoded and read back; payload bytes and ECI headers must equal the statement. '
+    'Exhaustive within the stated bounds; contents beyond them are not covered.',
+    'Trusted: qrref reader (decodes the ISO figures at every run), Python codecs. Bounds in evidence.coverage.bounds.',
+    'DESIGN.md section 5, C01')
+add('C03', 'fault_enumeration',
+    'exhaustive syndrome check of all 168 block layouts + enumeration of error patterns (all single-codeword errors, position pairs, bursts at every offset per block shape) corrected by an independent Berlekamp-Massey decoder',
+    'Validity of every RS block of every (version, level) layout is decided on real symbols; fault patterns of weight <= floor(ec/2) are enumerated per code and must be corrected to the original; '
+    'weight t+1 controls guard against a vacuous corrector.',
+    'Trusted: qrref RS arithmetic (generated from x^8+x^4+x^3+x^2+1) and Table 9 typed independently of consts.ECC. The full weight<=t pattern set follows from validity (distance ec+1).',
+    'DESIGN.md section 5, C03')
+add('C04', 'model_checking',
+    'explicit reference decision model (qrref.select) whose every prediction is replayed on segno.make: all capacity boundaries both sides, all lengths, requested versions, alternating multi-part contents',
+    'The model (ordered version list, admissibility, ISO capacities with the candidate version\'s indicator widths) is evaluated on every configuration of the bounded space and each prediction '
+    '(version or refusal, DataOverflowError) is replayed on the implementation; payloads are decoded near boundaries to exclude silent truncation.',
+    'Trusted: qrref capacity tables (derived from geometry + Table 9). Contents are single-mode runs and alternating one-character parts.',
+    'DESIGN.md section 5, C04')
+add('C05', 'model_checking',
+    'same model/enumeration as C04; predicted error level compared with QRCode.error and the level bits read from the format information; boost on/off pairs compared',
+    'For every configuration of the C04 space the model level (boosting rule of the statement) is compared with the implementation and with the format information; '
+    'version(boost=True) == version(boost=False) is checked for every boundary configuration.',
+    'Trusted: qrref capacity tables and BCH format decoding.',
+    'DESIGN.md section 5, C05')
+add('C06', 'exploration',
+    'exhaustive evaluation of all 8/4 mask candidates of every explored symbol by an independent ISO 7.8.3 scorer; all requested masks unmasked with independent Table 10 patterns',
+    'For each explored symbol every candidate mask is rebuilt from the emitted matrix and scored independently; the chosen mask must be the lowest-numbered optimum. '
+    'All 8/4 requested masks must unmask to the same data stream.',
+    'Trusted: qrref penalty scorer (interpretations stated in DESIGN.md: light format areas, virtual light border for N3, both N4 boundary conventions accepted).',
+    'DESIGN.md section 5, C06')
+add('C07', 'exploration',
+    'exhaustive small scope: all 65792 one- and two-byte inputs x 6 mode requests, 3-byte strings over a class alphabet, code points; three-valued model predicate; mode indicator read back',
+    'Every 1- and 2-byte input is encoded with every mode request; the mode used must match the model predicate and the mode indicator decoded from the symbol.',
+    'Trusted: model predicates (qrref.model) and stdlib shift_jis/gb2312 codecs; the kanji grey zone (unassigned cells) accepts either answer.',
+    'DESIGN.md section 5, C07')
+add('C09', 'exploration',
+    'bounded-exhaustive product of symbol sizes x scales x borders x colour variants x options; each file parsed by an independent format reader and compared pixel by pixel',
+    'Every produced PNG/PBM/PAM/PPM/XBM/XPM/TXT/ANSI/half-block output is parsed from its bytes (signature, CRCs, declared sizes) and each pixel is compared with the module it depicts.',
+    'Trusted: readers written from the format specifications (zlib/struct/re only). One real symbol per size.',
+    'DESIGN.md section 5, C09')
+add('C10', 'exploration',
+    'bounded-exhaustive product of sizes x scales (integer, fractional, < 1) x borders x colours x SVG option vectors (<= k deviations); independent SVG/EPS/PDF/PGF readers rasterise the strokes on the module grid',
+    'Each document is parsed (XML, PostScript subset, PDF objects/xref/Flate stream, PGF), its own transform applied, and the covered cells compared with the dark modules; page size, colours, background, PDF offsets and /Length are checked.',
+    'Trusted: readers for the operator subsets segno emits; anything else is malformed. PGF compared up to a translation.',
+    'DESIGN.md section 5, C10')
+add('C11', 'exploration',
+    'every module position of all 44 symbol sizes compared with an independent ISO classification; colourful outputs parsed back for all option subsets up to a size bound',
+    'Plain and verbose iteration are compared position by position with qrref.layout; colourful PNG/SVG/PPM are parsed and each cell compared with the colour configured for its type.',
+    'Trusted: qrref.layout function map; format readers.',
+    'DESIGN.md section 5, C11')
+add('C13', 'model_checking',
+    'reference bit-stream model (segments, terminator, bit padding, pad codewords) compared bit by bit with the data codewords read from every explored symbol over the residue x distance grid',
+    'The model stream is computed for every content of the grid (every residue mod 8 and every distance 0..12 to capacity per version/level) and compared with the codewords recovered from the real symbol.',
+    'Trusted: qrref stream model (reproduces ISO Annex I bit for bit). One known finding with an exact classifier.',
+    'DESIGN.md section 5, C13')
+
 ALL = ['C%02d' % i for i in range(1, 17)]
 
 
